@@ -1,3 +1,510 @@
 package main
 
-func simMain(args []string) int { return 0 }
+// Sub-command "sim": builds the real NVIDIA platform (driver, GPUs, SMs,
+// sub-cores from their public builders, any shape), injects kernels through
+// benchmark.ExecKernel.SetKernel, runs it with the real runner under the real
+// serial engine and records, through engine hooks, the sequence of handled
+// events together with a digest of the component that was ticked.
+
+import (
+	"encoding/json"
+	"flag"
+	"fmt"
+	"io"
+	"os"
+	"reflect"
+	"sort"
+	"strconv"
+	"strings"
+	"unsafe"
+
+	log "github.com/sirupsen/logrus"
+
+	"github.com/sarchlab/akita/v4/sim"
+	"github.com/sarchlab/mgpusim/v4/nvidia/benchmark"
+	"github.com/sarchlab/mgpusim/v4/nvidia/driver"
+	"github.com/sarchlab/mgpusim/v4/nvidia/gpu"
+	"github.com/sarchlab/mgpusim/v4/nvidia/nvidiaconfig"
+	"github.com/sarchlab/mgpusim/v4/nvidia/platform"
+	"github.com/sarchlab/mgpusim/v4/nvidia/runner"
+	"github.com/sarchlab/mgpusim/v4/nvidia/sm"
+	"github.com/sarchlab/mgpusim/v4/nvidia/subcore"
+
+	"verifharness/vh"
+)
+
+type GPUShape struct {
+	SMs  int `json:"sms"`
+	Subs int `json:"subs"`
+}
+
+type NodeState struct {
+	Unfin  int64 `json:"unfin"`
+	Fin    int64 `json:"fin"`
+	Undisp int   `json:"undisp"`
+	Free   []int `json:"free"`
+	Total  int64 `json:"total"`
+	Bufs   []int `json:"bufs"` // up_in up_out dn_in dn_out
+}
+
+type SimCase struct {
+	GPUs    []GPUShape  `json:"gpus"`
+	Freq    string      `json:"freq"` // "hz": components 1 Hz, GPU/SM connections 1 GHz (as nvidia.go); "ghz": all 1 GHz
+	Kernels [][][]int64 `json:"kernels"`
+	Tag     string      `json:"tag,omitempty"`
+	// observations
+	Kids       [][]int     `json:"kids,omitempty"`
+	Events     []int       `json:"events,omitempty"` // 0 = next cycle, 2u+1 = tick of component u, 2u+2 = tick of the connection below u
+	Obs        []uint64    `json:"obs,omitempty"`
+	Final      []NodeState `json:"final,omitempty"`
+	Unfinished int64       `json:"unfinished"`
+	Timeout    bool        `json:"timeout"`
+	Crash      string      `json:"crash,omitempty"`
+	NEvents    int         `json:"nevents"`
+	Coq        string      `json:"coq,omitempty"`
+}
+
+const maxEvents = 400000
+
+type abortRun struct{}
+
+// ---- reflection helpers (private fields are only read)
+
+func fld(obj interface{}, name string) reflect.Value {
+	v := reflect.ValueOf(obj)
+	for v.Kind() == reflect.Ptr || v.Kind() == reflect.Interface {
+		v = v.Elem()
+	}
+	f := v.FieldByName(name)
+	if !f.IsValid() {
+		panic("verif harness: field " + name + " not found in " + v.Type().String())
+	}
+	return f
+}
+
+func expose(f reflect.Value) interface{} {
+	return reflect.NewAt(f.Type(), unsafe.Pointer(f.UnsafeAddr())).Elem().Interface()
+}
+
+func bufSizes(p sim.Port) (in, out int) {
+	in = expose(fld(p, "incomingBuf")).(sim.Buffer).Size()
+	out = expose(fld(p, "outgoingBuf")).(sim.Buffer).Size()
+	return
+}
+
+func connOf(p sim.Port) *sim.TickingComponent {
+	c := expose(fld(p, "conn"))
+	return expose(fld(c, "TickingComponent")).(*sim.TickingComponent)
+}
+
+// ---- the platform with its flat node numbering
+
+type node struct {
+	kind   int // 0 driver, 1 gpu, 2 sm, 3 subcore
+	obj    interface{}
+	tc     *sim.TickingComponent
+	up, dn sim.Port
+	kids   []int
+}
+
+type world struct {
+	nodes  []*node
+	byPtr  map[uintptr]int // component pointer -> node index
+	byTC   map[*sim.TickingComponent]int
+	byConn map[*sim.TickingComponent]int
+}
+
+func suffixIndex(name string) int {
+	i := strings.LastIndex(name, "(")
+	n, err := strconv.Atoi(strings.TrimSuffix(name[i+1:], ")"))
+	if err != nil {
+		panic("verif harness: cannot parse index from " + name)
+	}
+	return n
+}
+
+func buildWorld(c *SimCase) (*world, *runner.Runner) {
+	freq := 1 * sim.Hz
+	if c.Freq == "ghz" {
+		freq = 1 * sim.GHz
+	}
+	engine := sim.NewSerialEngine()
+	drv := new(driver.DriverBuilder).WithEngine(engine).WithFreq(freq).Build("Driver")
+	p := &platform.Platform{Engine: engine, Driver: drv}
+	for i, sh := range c.GPUs {
+		g := new(gpu.GPUBuilder).WithEngine(engine).WithFreq(freq).
+			WithSMsCount(int64(sh.SMs)).WithSubcoresCountPerSM(int64(sh.Subs)).
+			Build(fmt.Sprintf("GPU(%d)", i))
+		drv.RegisterGPU(g)
+		p.Devices = append(p.Devices, g)
+	}
+	w := &world{byPtr: map[uintptr]int{}, byTC: map[*sim.TickingComponent]int{}, byConn: map[*sim.TickingComponent]int{}}
+	add := func(n *node) int {
+		w.nodes = append(w.nodes, n)
+		return len(w.nodes) - 1
+	}
+	d := &node{kind: 0, obj: drv, tc: drv.TickingComponent, dn: drv.GetPortByName("ToDevice")}
+	add(d)
+	var gpus []*node
+	for _, g := range p.Devices {
+		n := &node{kind: 1, obj: g, tc: g.TickingComponent,
+			up: g.GetPortByName(g.Name() + ".ToDriver"), dn: g.GetPortByName(g.Name() + ".ToSMs")}
+		d.kids = append(d.kids, add(n))
+		gpus = append(gpus, n)
+	}
+	var sms []*node
+	for _, gn := range gpus {
+		g := gn.obj.(*gpu.GPU)
+		list := make([]*sm.SM, 0)
+		for _, s := range g.SMs {
+			list = append(list, s)
+		}
+		sort.Slice(list, func(a, b int) bool { return suffixIndex(list[a].Name()) < suffixIndex(list[b].Name()) })
+		for _, s := range list {
+			n := &node{kind: 2, obj: s, tc: s.TickingComponent,
+				up: s.GetPortByName(s.Name() + ".ToGPU"), dn: s.GetPortByName(s.Name() + ".ToSubcores")}
+			gn.kids = append(gn.kids, add(n))
+			sms = append(sms, n)
+		}
+	}
+	for _, sn := range sms {
+		s := sn.obj.(*sm.SM)
+		list := make([]*subcore.Subcore, 0)
+		for _, sc := range s.Subcores {
+			list = append(list, sc)
+		}
+		sort.Slice(list, func(a, b int) bool { return suffixIndex(list[a].Name()) < suffixIndex(list[b].Name()) })
+		for _, sc := range list {
+			n := &node{kind: 3, obj: sc, tc: sc.TickingComponent, up: sc.GetPortByName(sc.Name() + ".ToSM")}
+			sn.kids = append(sn.kids, add(n))
+		}
+	}
+	for i, n := range w.nodes {
+		w.byPtr[reflect.ValueOf(n.obj).Pointer()] = i
+		w.byTC[n.tc] = i
+		if n.dn != nil {
+			w.byConn[connOf(n.dn)] = i
+		}
+	}
+	r := new(runner.RunnerBuilder).WithPlatform(p).Build()
+	bm := &benchmark.Benchmark{}
+	for _, k := range c.Kernels {
+		kern := nvidiaconfig.Kernel{}
+		for _, b := range k {
+			tb := nvidiaconfig.Threadblock{}
+			for _, n := range b {
+				wp := nvidiaconfig.Warp{InstructionsCount: n}
+				for j := int64(0); j < n; j++ {
+					wp.Instructions = append(wp.Instructions, nvidiaconfig.Instruction{})
+				}
+				tb.Warps = append(tb.Warps, wp)
+				tb.WarpsCount++
+			}
+			kern.Threadblocks = append(kern.Threadblocks, tb)
+			kern.ThreadblocksCount++
+		}
+		exec := new(benchmark.ExecKernel)
+		exec.SetKernel(kern)
+		bm.TraceExecs = append(bm.TraceExecs, exec)
+	}
+	r.AddBenchmark(bm)
+	return w, r
+}
+
+var fieldNames = [4][5]string{
+	// unfinished, finished, undispatched, free, total
+	{"unfinishedKernelsCount", "", "undispatchedKernels", "freeDevices", ""},
+	{"unfinishedThreadblocksCount", "finishedKernelsCount", "undispatchedThreadblocks", "freeSMs", ""},
+	{"unfinishedWarpsCount", "finishedThreadblocksCount", "undispatchedWarps", "freeSubcores", "warpsCount"},
+	{"unfinishedInstsCount", "finishedWarpsCount", "", "", "instsCount"},
+}
+
+func (w *world) state(i int) NodeState {
+	n := w.nodes[i]
+	f := fieldNames[n.kind]
+	st := NodeState{Free: []int{}, Bufs: []int{0, 0, 0, 0}}
+	st.Unfin = fld(n.obj, f[0]).Int()
+	if f[1] != "" {
+		st.Fin = fld(n.obj, f[1]).Int()
+	}
+	if f[2] != "" {
+		st.Undisp = fld(n.obj, f[2]).Len()
+	}
+	if f[3] != "" {
+		fl := fld(n.obj, f[3])
+		for k := 0; k < fl.Len(); k++ {
+			idx, ok := w.byPtr[fl.Index(k).Pointer()]
+			if !ok {
+				panic("verif harness: unknown unit in a free list")
+			}
+			st.Free = append(st.Free, idx)
+		}
+	}
+	if f[4] != "" {
+		st.Total = fld(n.obj, f[4]).Int()
+	}
+	if n.up != nil {
+		st.Bufs[0], st.Bufs[1] = bufSizes(n.up)
+	}
+	if n.dn != nil {
+		st.Bufs[2], st.Bufs[3] = bufSizes(n.dn)
+	}
+	return st
+}
+
+func enc(v int64) uint64 { return uint64(v + 1000) }
+
+// digest of a component; the same polynomial is evaluated by the model (NvSim.node_digest)
+func (w *world) digest(i int) uint64 {
+	st := w.state(i)
+	h := uint64(0)
+	for _, x := range []uint64{enc(st.Unfin), enc(st.Fin), uint64(st.Undisp), uint64(len(st.Free)), enc(st.Total),
+		uint64(st.Bufs[0]), uint64(st.Bufs[1]), uint64(st.Bufs[2]), uint64(st.Bufs[3])} {
+		h = h*41 + x
+	}
+	for _, x := range st.Free {
+		h = h*41 + uint64(x)
+	}
+	return h
+}
+
+// digest after a connection tick: buffers of the parent and of every child
+func (w *world) connDigest(p int) uint64 {
+	st := w.state(p)
+	h := uint64(st.Bufs[2])*41 + uint64(st.Bufs[3])
+	for _, k := range w.nodes[p].kids {
+		in, out := bufSizes(w.nodes[k].up)
+		h = h*41 + uint64(in)
+		h = h*41 + uint64(out)
+	}
+	return h
+}
+
+type recorder struct {
+	w        *world
+	c        *SimCase
+	lastComp sim.VTimeInSec
+	count    int
+}
+
+func (r *recorder) Func(ctx sim.HookCtx) {
+	evt, ok := ctx.Item.(sim.Event)
+	if !ok {
+		return
+	}
+	h, _ := evt.Handler().(*sim.TickingComponent)
+	switch ctx.Pos {
+	case sim.HookPosBeforeEvent:
+		r.count++
+		if r.count > maxEvents {
+			panic(abortRun{})
+		}
+		if i, ok := r.w.byTC[h]; ok {
+			if evt.Time() > r.lastComp {
+				r.c.Events = append(r.c.Events, 0)
+				r.lastComp = evt.Time()
+			}
+			r.c.Events = append(r.c.Events, 2*i+1)
+		} else if i, ok := r.w.byConn[h]; ok {
+			r.c.Events = append(r.c.Events, 2*i+2)
+		} else {
+			panic("verif harness: event for an unknown handler")
+		}
+	case sim.HookPosAfterEvent:
+		if i, ok := r.w.byTC[h]; ok {
+			r.c.Obs = append(r.c.Obs, r.w.digest(i))
+		} else if i, ok := r.w.byConn[h]; ok {
+			r.c.Obs = append(r.c.Obs, r.w.connDigest(i))
+		}
+	}
+}
+
+func runSim(c *SimCase) {
+	c.Events, c.Obs, c.Final, c.Kids = []int{}, []uint64{}, nil, nil
+	c.Timeout, c.Crash = false, ""
+	w, r := buildWorld(c)
+	for _, n := range w.nodes {
+		k := n.kids
+		if k == nil {
+			k = []int{}
+		}
+		c.Kids = append(c.Kids, k)
+	}
+	rec := &recorder{w: w, c: c}
+	r.Engine().AcceptHook(rec)
+	func() {
+		defer func() {
+			if e := recover(); e != nil {
+				if _, ok := e.(abortRun); ok {
+					c.Timeout = true
+				} else {
+					c.Crash = fmt.Sprint(e)
+				}
+			}
+		}()
+		r.Run()
+	}()
+	c.NEvents = rec.count
+	for i := range w.nodes {
+		c.Final = append(c.Final, w.state(i))
+	}
+	c.Unfinished = c.Final[0].Unfin
+	c.Coq = coqSim(c)
+}
+
+func coqNats(xs []int) string {
+	s := make([]string, len(xs))
+	for i, x := range xs {
+		s[i] = strconv.Itoa(x)
+	}
+	return "[" + strings.Join(s, ";") + "]"
+}
+
+func coqSim(c *SimCase) string {
+	kids := make([]string, len(c.Kids))
+	for i, k := range c.Kids {
+		kids[i] = coqNats(k)
+	}
+	ks := make([]string, len(c.Kernels))
+	for i, k := range c.Kernels {
+		bs := make([]string, len(k))
+		for j, b := range k {
+			ws := make([]string, len(b))
+			for l, n := range b {
+				ws[l] = strconv.FormatInt(n, 10)
+			}
+			bs[j] = "[" + strings.Join(ws, ";") + "]"
+		}
+		ks[i] = "[" + strings.Join(bs, ";") + "]"
+	}
+	obs := make([]string, len(c.Obs))
+	for i, o := range c.Obs {
+		obs[i] = strconv.FormatUint(o, 10)
+	}
+	fin := make([]string, len(c.Final))
+	for i := range c.Final {
+		st := c.Final[i]
+		h := uint64(0)
+		for _, x := range []uint64{enc(st.Unfin), enc(st.Fin), uint64(st.Undisp), uint64(len(st.Free)), enc(st.Total),
+			uint64(st.Bufs[0]), uint64(st.Bufs[1]), uint64(st.Bufs[2]), uint64(st.Bufs[3])} {
+			h = h*41 + x
+		}
+		for _, x := range st.Free {
+			h = h*41 + uint64(x)
+		}
+		fin[i] = strconv.FormatUint(h, 10)
+	}
+	stopped := !c.Timeout && c.Crash == ""
+	return fmt.Sprintf("mkcase ([%s])%%nat [%s] (%s)%%nat [%s] [%s] %s",
+		strings.Join(kids, ";"), strings.Join(ks, ";"), coqNats(c.Events),
+		strings.Join(obs, ";"), strings.Join(fin, ";"), vh.CoqBool(stopped))
+}
+
+// ---- generation
+
+func genKernels(rng *vh.Rng, degenerate bool, big bool) [][][]int64 {
+	nk := 1 + rng.Intn(3)
+	ks := make([][][]int64, 0, nk)
+	for i := 0; i < nk; i++ {
+		nb := 1 + rng.Intn(4)
+		if big {
+			nb = 2 + rng.Intn(6)
+		}
+		if degenerate && rng.Intn(6) == 0 {
+			nb = 0
+		}
+		k := make([][]int64, 0, nb)
+		for j := 0; j < nb; j++ {
+			nw := 1 + rng.Intn(5)
+			if big {
+				nw = 3 + rng.Intn(6)
+			}
+			if degenerate && rng.Intn(5) == 0 {
+				nw = 0
+			}
+			b := make([]int64, 0, nw)
+			for l := 0; l < nw; l++ {
+				n := int64(1 + rng.Intn(4))
+				if rng.Intn(4) == 0 {
+					n = int64(1 + rng.Intn(9))
+				}
+				if degenerate && rng.Intn(4) == 0 {
+					n = 0
+				}
+				b = append(b, n)
+			}
+			k = append(k, b)
+		}
+		ks = append(ks, k)
+	}
+	return ks
+}
+
+func genCase(rng *vh.Rng, i int) *SimCase {
+	c := &SimCase{}
+	ng := 1 + rng.Pick(5, 3, 2)
+	for g := 0; g < ng; g++ {
+		c.GPUs = append(c.GPUs, GPUShape{SMs: 1 + rng.Intn(4), Subs: 1 + rng.Intn(4)})
+	}
+	if rng.Intn(3) == 0 { // uniform shape
+		for g := range c.GPUs {
+			c.GPUs[g] = c.GPUs[0]
+		}
+	}
+	c.Freq = "hz"
+	if rng.Bool() {
+		c.Freq = "ghz"
+	}
+	degenerate := i%3 == 1
+	big := i%7 == 3
+	c.Kernels = genKernels(rng, degenerate, big)
+	if i%11 == 5 { // many sub-cores reporting at once: fills the SM's 4-deep buffer
+		c.GPUs = []GPUShape{{SMs: 1 + rng.Intn(2), Subs: 4}}
+		c.Kernels = [][][]int64{{{2, 2, 2, 2, 2, 2, 2, 2}, {1, 1, 1, 1}}}
+	}
+	return c
+}
+
+func simMain(args []string) int {
+	fs := flag.NewFlagSet("sim", flag.ExitOnError)
+	seed := fs.Uint64("seed", 1, "seed")
+	n := fs.Int("n", 50, "number of generated cases")
+	out := fs.String("out", "", "output file")
+	replay := fs.String("replay", "", "JSON list of cases to run instead of generating")
+	_ = fs.Parse(args)
+	log.SetOutput(io.Discard)
+	log.SetLevel(log.PanicLevel)
+	// the driver prints the finishing time on stdout; keep our stdout clean
+	devnull, _ := os.OpenFile(os.DevNull, os.O_WRONLY, 0)
+	stdout := os.Stdout
+	os.Stdout = devnull
+	var cases []*SimCase
+	if *replay != "" {
+		data, err := os.ReadFile(*replay)
+		if err != nil {
+			fmt.Fprintln(os.Stderr, err)
+			return 2
+		}
+		if err := json.Unmarshal(data, &cases); err != nil {
+			fmt.Fprintln(os.Stderr, err)
+			return 2
+		}
+	} else {
+		rng := vh.NewRng(*seed)
+		for i := 0; i < *n; i++ {
+			cases = append(cases, genCase(rng.Fork(), i))
+		}
+	}
+	for _, c := range cases {
+		runSim(c)
+	}
+	os.Stdout = stdout
+	data, _ := json.Marshal(cases)
+	if *out == "" {
+		fmt.Println(string(data))
+	} else if err := os.WriteFile(*out, data, 0o644); err != nil {
+		fmt.Fprintln(os.Stderr, err)
+		return 2
+	}
+	return 0
+}
